@@ -729,10 +729,14 @@ def rule_assid(ctx: Ctx) -> RuleResult:
                 if not st.orelse and st.body and isinstance(st.body[-1], (ast.Break, ast.Continue, ast.Return)):
                     # early-exit spelling: the other branch is what follows the `if`
                     orelse = [x for x in _following(m.node, st) if not isinstance(x, (ast.Break, ast.Continue))][:1]
-                a = [x for x in body if isinstance(x, (ast.Expr, ast.Return))]
-                b = [x for x in orelse if isinstance(x, (ast.Expr, ast.Return))]
+                a = [x for x in body if isinstance(x, (ast.Expr, ast.Return, ast.Assign))]
+                b = [x for x in orelse if isinstance(x, (ast.Expr, ast.Return, ast.Assign))]
                 va = _value_of(a[0]) if len(a) == 1 and len(body) == 1 else None
                 vb = _value_of(b[0]) if len(b) == 1 and len(orelse) == 1 else None
+                if a and b and (isinstance(a[0], ast.Assign) or isinstance(b[0], ast.Assign)):
+                    # both branches bind the same result variable
+                    if not (isinstance(a[0], ast.Assign) and isinstance(b[0], ast.Assign) and norm(a[0].targets[0]) == norm(b[0].targets[0])):
+                        va = vb = None
                 site = f"{m.qualname}: if as_sid: {norm(va) if va is not None else '?'} else: {norm(vb) if vb is not None else '?'}"
                 ok = False
                 if va is not None and vb is not None:
